@@ -165,6 +165,8 @@ func corpusRand() []*modSpec {
 		mk("rand-skip-and-enums", "package models\n\nimport \"time\"\n\ntype E int\n\nconst (\n\tA E = iota\n\tb\n\tC\n)\n\ntype SE string\n\nconst (\n\tX SE = \"x\"\n\tY SE = \"y\"\n)\n\ntype U interface{ isU() }\ntype M1 struct{ V E }\ntype M2 []int\n\nfunc (M1) isU() {}\nfunc (M2) isU() {}\n\ntype S struct {\n\tKeep int\n\tSkip int `gomacro-data:\"ignore\"`\n\thidden string\n\tE E\n\tSE SE\n\tU U\n\tL []U2\n\tM map[SE]M1\n\tF [3]E\n\tT time.Time\n\tTs []time.Time\n}\n\ntype U2 interface{ isU2() }\n\nfunc (M1) isU2() {}\n"),
 		mk("rand-iota-sentinel", "package models\n\ntype Kind int\n\nconst (\n\tCircle Kind = iota\n\tSquare\n\tTriangle\n\tnbKinds // sentinel\n)\n\ntype Mode uint8\n\nconst (\n\tfirstMode Mode = iota\n\tOn\n\tOff\n)\n\ntype Shape struct {\n\tK Kind\n\tKs []Kind\n\tM Mode\n\tByKind map[Kind]int\n}\n"),
 		mk("rand-hidden-from-json", "package models\n\ntype Kind int\n\nconst (\n\tCircle Kind = iota + 1\n\tSquare\n\tTriangle\n)\n\ntype Shape interface{ isShape() }\ntype A struct{ X int }\ntype B struct{ Y string }\n\nfunc (A) isShape() {}\nfunc (B) isShape() {}\n\ntype Holder struct {\n\tK Kind `json:\"-\"`\n\tS Shape `json:\"-\"`\n\tHidden []int `gomacro:\"ignore\"`\n\tM map[string]Kind `json:\"-\" gomacro:\"ignore\"`\n\tSkip int `gomacro-data:\"ignore\"`\n\tName string\n}\n"),
+		mk("rand-imported-package-named-like-the-analysed-one", "package models\n\nimport shared \"example.com/org/models/shared/models\"\n\ntype Order struct {\n\tStatus shared.Status\n\tCurrency shared.Currency\n\tHistory []shared.Status\n}\n",
+			modFile{"shared/models/models.go", "package models\n\ntype Status int\n\nconst (\n\tPending Status = iota + 1\n\tPaid\n\tShipped\n)\n\ntype Currency string\n\nconst (\n\tEUR Currency = \"EUR\"\n\tUSD Currency = \"USD\"\n)\n\ntype Payment interface{ isPayment() }\ntype Card struct{ N int }\ntype Cash struct{ Amount int }\n\nfunc (Card) isPayment() {}\nfunc (Cash) isPayment() {}\n"}),
 		mk("rand-empty", "package models\n\ntype Empty struct{}\ntype OnlyHidden struct{ a int }\ntype Zero [0]int\n\ntype S struct {\n\tE Empty\n\tO OnlyHidden\n\tZ Zero\n}\n"),
 	}
 }
